@@ -1116,17 +1116,22 @@ theorem matchingInRangeUnless_line (uid : α → Option Key) (f : List α) (cs :
     ∀ t ∈ r, ∃ s : Nat, t.start = some (s : Int) ∧ t.line = lineNo uid f s :=
   singles_line uid f _ r h
 
-/-- **get_n_tokens_before_and_after_tokens_bounded_by_tokens**, partial (guard `n ≤ i`) -/
-theorem nBeforeAndAfterBounded_sliceExact_partial (uid : α → Option Key) (f : List α) (n : Nat) (cs : List Cls)
+/-- **get_n_tokens_before_and_after_tokens_bounded_by_tokens** (after the repair of the extractor, the same as for
+    its unbounded sibling): every region is the slice at its recorded start `i - n`, `i ≥ n` a matched position whose
+    line is recorded.  (Before: guard `n ≤ i`, witness `nBeforeAndAfterBounded_negative_start`.) -/
+theorem nBeforeAndAfterBounded_sliceExact (uid : α → Option Key) (f : List α) (n : Nat) (cs : List Cls)
     (a b : Option Key) (r : List (Toi α)) (h : nBeforeAndAfterBounded f (processTokens uid f) n cs a b = .ok r) :
-    ∀ t ∈ r, ∃ i : Nat, t.start = some ((i : Int) - (n : Int)) ∧ t.line = lineNo uid f i ∧ (n ≤ i → t.Exact f) :=
-  nBeforeAndAfterBounded_exact_partial uid f n cs a b r h
+    ∀ t ∈ r, t.Exact f ∧ ∃ i : Nat, n ≤ i ∧ t.start = some ((i : Int) - (n : Int)) ∧ t.line = lineNo uid f i := by
+  intro t ht
+  obtain ⟨he, i, hn, hs, hl⟩ := nBeforeAndAfterBounded_exact uid f n cs a b r h t ht
+  exact ⟨he, i, hn, by rw [hs]; congr 1; omega, hl⟩
 
-/-- `( id ) cr` with `n = 2`: start `-1`, tokens `l[-1:4]` = the last token of the file -/
-theorem nBeforeAndAfterBounded_negative_start :
+/-- the input of the former witness, `( id ) cr` with `n = 2` (start `-1`, tokens `l[-1:4]` = the last token of
+    the file): no region any more -/
+theorem nBeforeAndAfterBounded_short_prefix_skipped :
     (nBeforeAndAfterBounded [4, 3, 5, 0] (processTokens xView.uid [4, 3, 5, 0]) 2 [⟨some ("w", "id"), 3⟩]
         (some ("w", "open")) (some ("w", "close"))).toOption.map
-      (fun r => r.map (fun t => (t.start, t.line, t.toks))) = some [(some (-1), 1, [0])] := by
+      (fun r => r.map (fun t => (t.start, t.line, t.toks))) = some [] := by
   decide +kernel
 
 /-- **get_line_which_includes_tokens**: a slice; the recorded line is the line of the matched token,
